@@ -30,7 +30,8 @@ LIB_FLAGS = ["-O2", "-g", "-std=gnu11", "-fsanitize=thread", "-D" + GUARD,
              "-DFIBER_FAST_SWITCHING", "-DFIBER_STACK_MALLOC", "-DNDEBUG",
              "-fno-omit-frame-pointer"]
 WRAPS = ["fiber_context_swap", "fiber_context_init", "fiber_context_init_from_thread",
-         "fiber_context_destroy", "fiber_scheduler_schedule", "fiber_scheduler_next"]
+         "fiber_context_destroy", "fiber_scheduler_schedule", "fiber_scheduler_next",
+         "wsd_work_stealing_deque_push_bottom", "wsd_work_stealing_deque_pop_bottom"]
 
 
 def repo_dir():
